@@ -85,18 +85,11 @@ func (n *node[T]) Methods() []string { return methodIndexes[n.methodIndex].metho
 
 // 添加一个处理函数
 func (n *node[T]) addMethods(h T, pattern string, ms []types.Middleware[T], methods ...string) error {
+	if err := checkMethods(n.root.hasTrace, n.handlers, methods); err != nil {
+		return err
+	}
+
 	for _, m := range methods {
-		if m == http.MethodOptions || m == http.MethodHead || (n.root.hasTrace && m == http.MethodTrace) {
-			return fmt.Errorf("无法手动添加 OPTIONS/HEAD/TRACE 请求方法")
-		}
-		if _, found := methodIndexMap[m]; !found {
-			return fmt.Errorf("该请求方法 %s 不被支持", m)
-		}
-
-		if _, found := n.handlers[m]; found {
-			return fmt.Errorf("该请求方法 %s 已经存在", m)
-		}
-
 		if m == http.MethodGet {
 			n.handlers[http.MethodHead] = ApplyMiddleware(h, http.MethodHead, pattern, n.root.Name(), ms...)
 		}
@@ -116,6 +109,23 @@ func (n *node[T]) addMethods(h T, pattern string, ms []types.Middleware[T], meth
 	n.buildMethods()
 	n.root.buildMethods(1, methods...)
 
+	return nil
+}
+
+// 检测 methods 是否都能添加至 exists，不会修改任何内容。
+func checkMethods[T any](hasTrace bool, exists map[string]T, methods []string) error {
+	for i, m := range methods {
+		if m == http.MethodOptions || m == http.MethodHead || (hasTrace && m == http.MethodTrace) {
+			return fmt.Errorf("无法手动添加 OPTIONS/HEAD/TRACE 请求方法")
+		}
+		if _, found := methodIndexMap[m]; !found {
+			return fmt.Errorf("该请求方法 %s 不被支持", m)
+		}
+
+		if _, found := exists[m]; found || slices.Index(methods[:i], m) >= 0 {
+			return fmt.Errorf("该请求方法 %s 已经存在", m)
+		}
+	}
 	return nil
 }
 
